@@ -4,6 +4,7 @@ property's text and a scratch worktree; nothing from /verif)."""
 import json, sys, subprocess, os
 pid = sys.argv[1]
 n = int(sys.argv[2]) if len(sys.argv) > 2 else 3
+ROUND2 = len(sys.argv) > 3 and sys.argv[3] == "round2"
 for l in open(os.path.join(os.path.dirname(os.path.dirname(os.path.abspath(__file__))), "properties.jsonl")):
     p = json.loads(l)
     if p["id"] == pid:
@@ -34,4 +35,6 @@ Your job: produce {n} different, independent changes to the library source (file
 
 For each change i = 1..{n} write into {out}/<i>/: `patch.diff` (output of `git diff` in the worktree; must apply cleanly to the unchanged tree with `git apply`), `demo.cpp` (or demo.c), `run.sh` (usage: `run.sh <tree>`; builds the demo against the library built in <tree>/_build — link `<tree>/_build/librtosc-cpp.a` and `<tree>/_build/librtosc.a`, include `<tree>/include` — and runs it; exit status = the demo's), `meta.json` ({{"property":"{pid}","what_it_breaks":"…","needs_to_manifest":"…","verified":"the commands you ran and their outcome"}}). Verify (b) and (d) yourself for each change, one at a time (demo fails with the change, passes on the unchanged tree), and reset the worktree between changes (`git -C {wt} checkout -- .`). Leave the worktree clean at the end and delete its _build directory. Do not commit anything.
 
-Report the {n} changes briefly (one paragraph each) in your final message.""")
+Report the {n} changes briefly (one paragraph each) in your final message.""" + ("""
+
+Additional guidance for this round: the most obvious single-line slips in the main loops of the anchored functions (a flipped comparison, an off-by-one in the central loop bound) have already been tried by someone else. Look for less obvious ones: helper functions the anchors rely on, rarely taken branches, boundary handling (empty, maximal, exactly-full, wrap-around), integer width and signedness, state that persists between calls, clean-up after an error path, and pairs of sites that must stay consistent with each other.""" if ROUND2 else ""))
